@@ -20,3 +20,4 @@ class FSMMemory:
     pos_now: int = dataclasses.field(init=False, default=0)  # 当前位置
     stack: List[List[AMTBase]] = dataclasses.field(init=False, default_factory=lambda: [[]])  # 当前已解析的节点树：多层栈，每一层栈为一层插入语
     status: Union[FSMStatus, object] = dataclasses.field(init=False, default=FSMStatus.WAIT)  # 自动机状态
+    brackets: List[str] = dataclasses.field(init=False, default_factory=list)  # 当前尚未闭合的插入语的开始标记
